@@ -52,7 +52,19 @@ func genDoc(t *rapid.T, label string) json.RawMessage {
 // genE2EStep draws one client step together with the handler script it carries.
 func genE2EStep(t *rapid.T, ifaces []string, id int, errorsOften bool) Step {
 	st := Step{API: "send"}
-	kind := rapid.IntRange(0, 11).Draw(t, "stepkind")
+	kind := rapid.IntRange(0, 12).Draw(t, "stepkind")
+	if kind == 12 { // a more-sequence whose handler fails after k replies: they must still arrive, then the connection ends
+		st.More = true
+		sp := ScriptParams{Conn: 0, ID: id, Script: []Op{}}
+		for k := rapid.IntRange(1, 4).Draw(t, "kfail"); k > 0; k-- {
+			sp.Script = append(sp.Script, Op{Op: "reply", Continues: true, P: genDoc(t, "fp")})
+		}
+		sp.Script = append(sp.Script, Op{Op: "fail", S: rapid.SampledFrom(failKinds).Draw(t, "failkind")})
+		b, _ := json.Marshal(sp)
+		st.Params = b
+		st.Method = rapid.SampledFrom(ifaces).Draw(t, "iface") + ".Dies"
+		return st
+	}
 	if kind == 0 { // built-in / unknown targets
 		st.Method = rapid.SampledFrom([]string{"org.varlink.service.GetInfo", "org.varlink.service.Nope", "no.such.Iface.M", "NoDots", "org.varlink.service.GetInterfaceDescription"}).Draw(t, "builtin")
 		if rapid.Bool().Draw(t, "viacall") {
